@@ -504,6 +504,7 @@ class World:
         self.qfields = {}
         self.constants = {}
         self.alias = {}
+        self.subst = {}  # terminal -> ("expr", image) | ("lin", [(scalar, terminal), ...]), see seval._substituted
         self.weight = _dyadic(rng, 0.125, 1.0, 64)
         self.seed_note = seed_note
         for attempt in range(6):
